@@ -99,6 +99,9 @@ class IndexCorrespondence:
                         size=size
                         )
 
+            if depth == 1 and common_labels.dtype == DTYPE_BOOL:
+                # as above, a Boolean array of labels must not be used as a Boolean selection
+                common_labels = common_labels.tolist()
             # these will be equal sized
             iloc_src = src_index._loc_to_iloc(common_labels)
             iloc_dst = dst_index._loc_to_iloc(common_labels)
